@@ -8,8 +8,12 @@ is stated as hypotheses on the values they are actually applied to (`F.sqrt d * 
 examples can instantiate them over ℚ.  ARPACK is the parameter `solver`; its contract (`IsEigenpairs`,
 `IsSingularTriplets`) is a hypothesis and is checked on every captured solver output by the `contract` lines.
 -/
+import Mathlib.Algebra.Order.Field.Rat
 import SkNet.Lemmas.EmbeddingSpectral
 import SkNet.Lemmas.EmbeddingNormalize
+import SkNet.Lemmas.EmbeddingGsvd
+import SkNet.Lemmas.EmbeddingRp
+import SkNet.Lemmas.EmbeddingLouvain
 
 set_option linter.unusedSectionVars false
 
@@ -42,6 +46,21 @@ theorem regularization_rule (reg : α) (connected : Bool) :
 
 example : getRegularization (-1 : ℚ) false = 1 ∧ getRegularization (-1 : ℚ) true = 0 ∧
     getRegularization (2 : ℚ) false = 2 := by decide
+
+/-! ### the Laplacian operator -/
+
+/-- **`laplacian_operator_denote`**: `Laplacian(adjacency, reg, normalized).dot(x)` of the model is
+    `(D_reg − A_reg) x`, resp. `S (D_reg − A_reg) S x` with `S = diag(norm_diag)`, where
+    `A_reg = A + reg·11ᵀ/n` and `D_reg = diag(A_reg 1)` are the matrices of the specification. -/
+theorem laplacian_operator_denote (F : Fn α) (n : Nat) (hn : 0 < n) (a : Mat α) (reg : α) (hreg : 0 ≤ reg)
+    (x : Vec α) (i : Nat) (hi : i < n) :
+    vget (lapMatvec (lapInit F n a reg false) a x) i = Spec.lapApply n a reg (vget x) i ∧
+    vget (lapMatvec (lapInit F n a reg true) a x) i
+      = vget (lapInit F n a reg true).normDiag i
+        * Spec.lapApply n a reg (fun j => vget (lapInit F n a reg true).normDiag j * vget x j) i ∧
+    vget (lapInit F n a reg true).normDiag i = pinv (F.sqrt (Spec.degReg n a reg i)) := by
+  refine ⟨lapMatvec_plain F n hn a reg hreg x i hi, lapMatvec_normalized F n hn a reg hreg x i hi, ?_⟩
+  rw [lapInit_normDiag F n a reg i hi, degReg_eq n hn]
 
 /-! ### Spectral -/
 
